@@ -349,7 +349,10 @@ def corpus_prims(package, byte_order=None):
                                 SetT("s", "uint16", [("p", 0), ("q", 9)])])
     types.append(inner)
     comp = Composite("Comp", [
-        Type("x", "uint32"), Type("kc", "uint8", presence="constant", const="7"), Type("arr", "char", length=3),
+        Type("x", "uint32"), Type("kc", "uint8", presence="constant", const="7"),
+        # constants that take their value from an enumerator (inline and through refs) sit *before* encoded members
+        Type("kv", "uint16", presence="constant", value_ref="E_u16.Hi"), Ref("rkv", "C_ref"), Ref("rkc", "C_refc"),
+        Type("kvc", "char", presence="constant", value_ref="E_char.A"), Type("arr", "char", length=3),
         Ref("ri", "T_int64"), Ref("ro", "O_double"), Ref("re", "E_u16"), Ref("rs", "S_u32"), Ref("rc", "Inner"),
         Ref("rk", "C_str"), Ref("ra", "A_u8_3"),
         Composite("nested", [Type("n1", "uint8"), Type("n2", "double", offset=4),
@@ -559,8 +562,23 @@ class _Gen:
 
     def const_type(self, inline=False):
         r = self.r
-        k = r.randrange(4)
+        k = r.randrange(5)
         n = self.name("k") if not inline else None
+        if k == 4:
+            enums = [t for t in self.types if t.kind == "enum" and t.values]
+            if enums:
+                e = r.choice(enums)
+                ev = r.choice(e.values)
+                ep = e.encoding if e.encoding in PRIM_SIZE else "uint8"
+                if ep == "char":
+                    return Type(n, "char", presence="constant", value_ref="%s.%s" % (e.name, ev.name))
+                lo, hi = _int_range(ep)
+                # pick a primitive that can represent the enumerator
+                v = int(ev.value)
+                cands = [p for p in INT_PRIMS if p != "char" and _int_range(p)[0] <= v <= _int_range(p)[1]]
+                if cands:
+                    return Type(n, r.choice(cands), presence="constant", value_ref="%s.%s" % (e.name, ev.name))
+            k = 0
         if k == 0:
             p = r.choice([x for x in INT_PRIMS if x != "char"])
             lo, hi = _int_range(p)
